@@ -17,7 +17,8 @@ META = {
             "bases with nf_out / nf_in active flavours WRITTEN IN THE CHECKER from their documented definitions (S, V, T_k, V_k; "
             "in QED S_delta = nd/nu sum_up - sum_down, Td3.., heavy quarks as q+/q-), and B^-1 is an exact matrix inverse. "
             "get_range is proved to return the intended (nf_in, nf_out) for each set. The library's flavour-content tables "
-            "(pids_from_intrinsic_evol / _unified_evol) are also compared with the reference bases label by label.",
+            "(pids_from_intrinsic_evol / _unified_evol) are also compared with the reference bases label by label."
+            " The physical label sets of nf = 3, 4, 5, 6, 3 are also rotated one after the other in ONE evaluator (QED and QCD): nothing remembered from an earlier flavour number enters.",
     "note": "Exhaustive over the finite configuration space; exact rationals; member values are scalars (x-grid of length one), "
             "which is general because the reconstruction acts on the flavour indices only (structure visible in the source: the "
             "x-block op.value is multiplied by scalar weights).",
@@ -171,6 +172,21 @@ def run(chk):
             cases.append(("mixed", qed, nf_in, nf_out))
     cases.sort(key=lambda c: {"physical": 0, "matching": 1, "mixed": 2, "table": 3}[c[0]])
     pmap(chk, _case, cases, jobs=12)
+    # operators of several flavour numbers rotated one after the other in ONE process (what a variable-flavour-number run does): each
+    # tensor is the change of basis of ITS flavour number - weights remembered from an earlier one must not be re-used
+    src = load()
+    box = [None]
+    pe = PE(src, assume=lambda text, env: decide_on_values(box[0], text, env))
+    box[0] = pe
+    f_phys = src.func(f"{PH}.ad_to_evol_map")
+    for qed in (True, False):
+        for nf in (3, 4, 5, 6, 3):
+            inst = f"physical,qed={qed},nf={nf},after other flavour numbers in the same process"
+            try:
+                ob = pe.apply(pe.getattr(pe.import_ref(PH), "ad_to_evol_map"), [physical_members(pe, qed), nf, dag.sym("q2"), qed], {})
+                compare(chk, pe, ob, qed, nf, nf, f_phys.qname, f_phys.where, inst)
+            except PERaise as e:
+                chk.fail("flavour-tensor-equals-change-of-basis", f_phys.qname, f"{inst}: raises {e}", where=f_phys.where, instance=inst)
     chk.floor("label sets", len(cases), 8 + 8 + 6 + 10)
     chk.note(instances=len(cases), files=["src/eko/member.py", "src/eko/evolution_operator/flavors.py",
                                           "src/eko/evolution_operator/physical.py", "src/eko/evolution_operator/matching_condition.py"])
